@@ -290,9 +290,63 @@ def r6(ctx, facts):
     r.instance("rotl64", got == rref, "rotl64(v, n) = %s; reference: %s" % (fmt(got), fmt(rref)), rb.span)
 
 
+# the only place a statement handle may start with the default partitioner: fresh from PREPARE (the session then sets it from metadata)
+FRESH_HANDLE = ("PreparedStatement::new",)
+
+
+def r7(ctx, facts):
+    r = ctx.rule("R7", "the partitioner of a prepared statement travels with every handle made from it (clone, cache handle, configured handle)", floor=3)
+    ST = "scylla::statement::prepared::"
+    n = 0
+    for b in facts.bodies.mentioning('"partitioner_name"'):
+        if b.crate != "scylla" or "::promoted[" in b.path:
+            continue
+        for bb in sorted(b.live_blocks):
+            for st in b.stmts(bb):
+                if not (st[0] == "A" and st[2][0] == "agg" and st[2][1][0] == "adt" and st[2][1][1] in (ST + "PreparedStatement", ST + "UnconfiguredPreparedStatement")):
+                    continue
+                fields = st[2][1][4]
+                if "partitioner_name" not in fields:
+                    continue
+                key = fn_short(b.path)
+                if key.endswith(FRESH_HANDLE):
+                    r.instance("fresh:" + key, True, "reviewed: handle fresh from PREPARE", b.stmt_span(st), nontrivial=False)
+                    continue
+                n += 1
+                op = st[2][2][fields.index("partitioner_name")]
+
+                def from_partitioner(o):
+                    locs, calls, _ = backward_slice(b, o)
+                    if any((c.name or "").endswith("get_partitioner_name") for c in calls):
+                        return True
+                    return "partitioner_name" in slice_fields(b, o) or any(b.local_name(l) == "partitioner_name" and l <= b.argc for l in locs)
+                ok = from_partitioner(op)
+                if not ok:
+                    # built with a placeholder and filled in afterwards: a later store into the field, on every path to the exit
+                    dest = st[1][0]
+                    for bb2 in sorted(b.live_blocks):
+                        for s2 in b.stmts(bb2):
+                            if s2[0] == "A" and s2[1][1] and path_last_name(s2[1]) == "partitioner_name" and s2[2][0] == "use" and from_partitioner(s2[2][1]) \
+                                    and b.dominates(bb, bb2) and all(b.dominates(bb2, x) for x in b.exits if x in b.reachable_from(bb)):
+                                ok = True
+                    for bb2, c2 in b.calls():
+                        if bb2 in b.live_blocks and (c2.name or "").endswith("PreparedStatement::set_partitioner_name") and len(c2.args) > 1 and from_partitioner(c2.args[1]) \
+                                and b.dominates(bb, bb2) and all(b.dominates(bb2, x) for x in b.exits if x in b.reachable_from(bb)):
+                            ok = True
+                r.instance("handle-keeps-partitioner:" + key, ok,
+                           "a statement handle built here does not take `partitioner_name` from the handle / cache entry it is made from: its token would be computed with the default "
+                           "(Murmur3) partitioner even for a CDC-log table, and the request routed to a non-replica", b.stmt_span(st))
+    r.instance("handle-construction-sites", n >= 3, "%d handle construction sites outside PreparedStatement::new (clone, make_unconfigured_handle, make_configured_handle)" % n, nontrivial=False)
+
+
+def path_last_name(place):
+    e = place[1][-1] if place[1] else None
+    return e[2] if isinstance(e, list) and e and e[0] == "f" and len(e) > 2 else None
+
+
 def check(ctx):
     facts = inline_view(ctx.facts("default"))
-    for fn in (r1, r2, r3, r4, r5, r6):
+    for fn in (r1, r2, r3, r4, r5, r6, r7):
         try:
             fn(ctx, facts)
         except AnchorLost as ex:
